@@ -444,6 +444,20 @@ def check_features(ctx, fi, block, total):
                 return name(roles[(acc, idx)])
         return None
     R = Replace(view).visit(clone(R))
+    # max(1, a if c else b)  ->  max(1, a) if c else max(1, b);  max(1, 1) -> 1      (clamp written after a default-then-override)
+    def push(e):
+        if isinstance(e, ast.IfExp):
+            return ast.IfExp(test=e.test, body=push(e.body), orelse=push(e.orelse))
+        if isinstance(e, ast.Call) and U(e.func) in ('max', 'np.maximum') and len(e.args) == 2 and not e.keywords:
+            a, b = e.args
+            one, oth = (a, b) if is_one(a) else ((b, a) if is_one(b) else (None, None))
+            if one is not None and isinstance(oth, ast.IfExp):
+                return ast.IfExp(test=oth.test, body=push(ast.Call(func=e.func, args=[one, oth.body], keywords=[])),
+                                 orelse=push(ast.Call(func=e.func, args=[one, oth.orelse], keywords=[])))
+            if one is not None and is_one(oth):
+                return oth
+        return e
+    R = push(R)
     symbols = {'__var__', '__est__', '__acc__', '__other__'}
     lists = {'__acc__'} | {roles[k] for k in roles if T(entry.get(k[0])) in ('[]', 'list()')}
     default = full = None
